@@ -70,6 +70,7 @@ def _execute(items):
     out = []
     w = None
     used = 0
+    nworld = [0]
 
     def world():
         nonlocal w, used
@@ -77,6 +78,10 @@ def _execute(items):
             if w is not None:
                 w.close()
             w = World('dict', demo=True, tls=False)
+            nworld[0] += 1
+            if nworld[0] % 2 == 0:
+                # every second world: what is sent arrives in several segments
+                w.segment_rng = random.Random(1000003 * nworld[0] + (items[0][0] if items else 0))
             used = 0
         used += 1
         return w
